@@ -40,6 +40,38 @@ def rule_zero_division(chk, db, cfgname):
         acc = {k for k, v in acc.items() if v}
         if not acc:
             continue
+        # keep only accumulators that can stay at zero although their loop runs: every increment is conditional
+        # (a `c ? 0 : 1` amount, or an increment control-dependent on a branch inside the loop)
+        g0 = C.Cfg(f)
+        loops0 = g0.loops()
+        cond_only = set()
+        for name in acc:
+            incs = []
+            for b in f['blocks']:
+                for e in b['ev']:
+                    tgt = None
+                    amount = None
+                    if e.get('k') == 'bin' and e.get('op') in ('+=', '-=') and T.strip(e['l']).get('k') == 'var':
+                        tgt, amount = T.strip(e['l'])['n'], e['r']
+                    elif e.get('k') == 'un' and e.get('op') in ('++', '--') and T.strip(e['e']).get('k') == 'var':
+                        tgt = T.strip(e['e'])['n']
+                    if tgt != name:
+                        continue
+                    conditional = amount is not None and any(isinstance(y, dict) and y.get('k') == 'cond'
+                                                             for y in T.walk(amount))
+                    if not conditional:
+                        body = None
+                        for h, blocks in loops0.items():
+                            if b['id'] in blocks and (body is None or len(blocks) < len(body)):
+                                body, head = blocks, h
+                        if body is not None:
+                            conditional = any(d in body and d != head for d, k in g0.control_deps(b['id']))
+                    incs.append(conditional)
+            if incs and all(incs):
+                cond_only.add(name)
+        acc = cond_only
+        if not acc:
+            continue
         g = None
         for b in f['blocks']:
             for e in b['ev']:
@@ -80,8 +112,8 @@ def main(chk, tier):
     chk.rule('C01.2', 'the effects the typestate attributes to its primitives hold in their bodies: SortGeometry '
              'calls SortVerts and SortFaces on every normal path, MakeEmpty clears positions and halfedges, '
              'RemoveUnreferencedVerts NaN-marks vertices, CalculateBBox turns a non-finite box into MakeEmpty')
-    chk.rule('C01.3', 'no floating-point division by a zero-initialised, only-accumulated local without a dominating '
-             'test of that local (0/0 = NaN would enter the mesh data; "all numbers are finite")')
+    chk.rule('C01.3', 'no floating-point division by a zero-initialised local that is only accumulated by conditional '
+             'increments (so it can stay 0 although its loop runs) without a dominating test of that local (0/0 = NaN would enter the mesh data; "all numbers are finite")')
     for cfgname in configs:
         db = D.load(cfgname)
         chk.configs.append(cfgname)
